@@ -132,7 +132,7 @@ Section Refine.
       { intros sc. apply preserves_script. apply exec_preserves. }
       assert (forall s0 st sc, reflects s0 st -> obs (run sc) s0 (rrun st sc)) as Ho.
       { intros s0 st sc Hr0. apply obs_actions; [apply exec_preserves | intros t0; apply IH; exact Hr0]. }
-      destruct t as [f | o m | o].
+      destruct t as [f | o m | o | o].
       + destruct (get_fn P f) as [fd|]; [|apply obs_raise].
         unfold call_fn, obs. cbn [run_seq]. rewrite <- (Hr (KF f)).
         destruct (kmem (KF f) s) eqn:Em.
@@ -168,5 +168,9 @@ Section Refine.
           apply obs_emit.
           apply obs_pbind; [apply Hp | apply Ho; exact Hc|].
           intros r. apply obs_pbind; [apply preserves_conj; exact Hp | apply obs_conj; [exact Hp | intros sc; apply Ho; exact Hc] | intros _; apply obs_ret].
+      + destruct (class_of P o) as [cd|]; [|apply obs_raise].
+        unfold call_new. apply obs_emit.
+        apply obs_pbind; [apply Hp | apply Ho; exact Hr|].
+        intros r. apply obs_pbind; [apply preserves_conj; exact Hp | apply obs_conj; [exact Hp | intros sc; apply Ho; exact Hr] | intros _; apply obs_ret].
   Qed.
 End Refine.
